@@ -296,7 +296,7 @@ CHECKS = {
   note=("claimed without 'equals the piecewise-linear interpolation of the "
         "selected built-in table' over the continuous plane and without the "
         "viscosity formulas (numeric accuracy, DESIGN section 7); px_um = 0 "
-        "only; quick: a sixth of 33k cases + 9 pairs; thorough: all + 90."),
+        "only; quick: a sixth of the cases + 24 pairs; thorough: all + 240; px_um = 0 on the lattice table, the pixelation law on the built-in tables."),
   technique="TLC exact rational oracle on a lattice LUT + TLC-checked laws on recorded paired calls",
  ),
  "C07": dict(
